@@ -835,6 +835,14 @@ func exec(t *testing.T, ci sim.CaseI, choices []uint32, keepLog bool) *sim.Outco
 		h.cnt["recoveries-checked"]++
 	})
 	out := &sim.Outcome{Res: res, Faults: h.faults, Counters: h.cnt}
+	// crash points reached per initial process (for the single-kill enumeration)
+	var ats []string
+	for id := 1; id <= len(c.Procs); id++ {
+		if p := h.procs[id]; p != nil {
+			ats = append(ats, fmt.Sprint(p.ats))
+		}
+	}
+	out.Final = strings.Join(ats, ",")
 	nf := 0
 	for _, n := range h.faults {
 		nf += n
@@ -887,8 +895,36 @@ func (h *harness) judge() *sim.Violation {
 	return nil
 }
 
+// expand enumerates the single-kill space of a fault-free run: one derived
+// run per (initial process, k-th crash point), replaying the decisions of the
+// base run, so that every derived run is identical to it up to the kill.
+func expand(ci sim.CaseI, out *sim.Outcome, tier string) []sim.Derived {
+	c := ci.(*Case)
+	if tier != "thorough" || len(c.Kills) > 0 || len(c.Net) > 0 || out.Final == "" {
+		return nil
+	}
+	// bound the work per base run: at most 250 kill points per process
+	var ds []sim.Derived
+	for pi, f := range strings.Split(out.Final, ",") {
+		n := 0
+		fmt.Sscan(f, &n)
+		step := 1
+		if n > 250 {
+			step = n/250 + 1
+		}
+		for k := 1; k <= n; k += step {
+			d := c.clone()
+			d.Population = "crash"
+			d.Kills = []Kill{{Proc: pi + 1, At: k}}
+			ds = append(ds, sim.Derived{Case: d, Choices: append([]uint32{}, out.Res.Choices...)})
+		}
+	}
+	return ds
+}
+
 var Prop = &sim.Prop{
-	ID:   "C16",
+	ID:     "C16",
+	Expand: expand,
 	New:  func() sim.CaseI { return &Case{} },
 	Gen:  gen,
 	Exec: exec,
